@@ -285,6 +285,9 @@ JudgeDistribute(tr, T, ev) ==
       dps == {Pos(T.dev, gd, ws[i]) : i \in 1..n}
       sps == ColumnPositions(T.dev, gs, a.col)
       same == ks = kd
+      \* C01 is stated for destinations with pairwise distinct positions (several virtual rows of one trough
+      \* column are one position on the Fluent)
+      distinctpos == Cardinality(dps) = n
       \* robot replay with the source range the property demands, so that a wrong range is one failing clause
       rb == Run(T, vol, TrackedComp(tr), ReplayRecs(T, ev))
   IN {
@@ -301,7 +304,7 @@ JudgeDistribute(tr, T, ev) ==
     Cl("C01.rcount", F.records /\ T.dev # "base" /\ valid /\ ok, Len(rs) = 1 /\ Len(Body(ev.recs)) = 1),
     Cl("C01.rsrcrack", F.records /\ T.dev # "base" /\ valid /\ ok /\ Len(rs) = 1, rs[1].srack = T.lw[ks].name),
     Cl("C01.rsrc", F.records /\ T.dev # "base" /\ valid /\ ok /\ Len(rs) = 1, (rs[1].s1)..(rs[1].s2) = sps),
-    Cl("C01.rdst", F.records /\ T.dev # "base" /\ valid /\ ok /\ Len(rs) = 1,
+    Cl("C01.rdst", F.records /\ T.dev # "base" /\ valid /\ ok /\ Len(rs) = 1 /\ distinctpos,
        /\ rs[1].drack = T.lw[kd].name
        /\ rs[1].d1 = MinOf(dps) /\ rs[1].d2 = MaxOf(dps)
        /\ ((rs[1].d1)..(rs[1].d2)) \ Range(rs[1].excl) = dps
@@ -315,11 +318,11 @@ JudgeDistribute(tr, T, ev) ==
     Cl("C06.multidisp", F.records /\ T.dev # "base" /\ valid /\ ok /\ Len(rs) = 1 /\ a.vol > 0,
        MultiDispOK(a.md, a.vol, T.wlmax, rs[1].md)),
     Cl("C09.comment", F.records /\ valid /\ ok, CommentTexts(ev.recs) = (IF a.label.h THEN CommentRecords(a.label.lines) ELSE <<>>)),
-    Cl("C01.robot", F.robot /\ live /\ T.dev # "base" /\ valid /\ ok,
+    Cl("C01.robot", F.robot /\ live /\ T.dev # "base" /\ valid /\ ok /\ distinctpos,
        rb.err = "" /\ rb.vol = post.vol),
-    Cl("C05.distcomp", F.robot /\ F.comp /\ cok /\ ev.cs /\ live /\ T.dev # "base" /\ valid /\ ok /\ rb.err = "" /\ ~rb.unknown,
+    Cl("C05.distcomp", F.robot /\ F.comp /\ cok /\ ev.cs /\ live /\ T.dev # "base" /\ valid /\ ok /\ distinctpos /\ rb.err = "" /\ ~rb.unknown,
        \A k \in 1..NLw(tr) : \A i \in 1..Len(post.vol[k]) : post.vol[k][i] > 0 => pc[k][i] = rb.comp[k][i]),
-    Cl("C01.robotcomp", F.robot /\ F.comp /\ cok /\ ev.cs /\ live /\ T.dev # "base" /\ valid /\ ok /\ rb.err = "" /\ ~rb.unknown,
+    Cl("C01.robotcomp", F.robot /\ F.comp /\ cok /\ ev.cs /\ live /\ T.dev # "base" /\ valid /\ ok /\ distinctpos /\ rb.err = "" /\ ~rb.unknown,
        \A k \in 1..NLw(tr) : \A i \in 1..Len(post.vol[k]) : post.vol[k][i] > 0 => pc[k][i] = rb.comp[k][i]),
     Cl("C11.count", live /\ T.dev # "base" /\ valid /\ ok,
        IF same THEN post.hn[ks] = hn[ks] + 1 ELSE post.hn[ks] = hn[ks] + 1 /\ post.hn[kd] = hn[kd] + 1),
